@@ -283,7 +283,7 @@ func c06Read(c *Ctx, pkg string, size int64) {
 						continue // output can only have been produced in read mode
 					}
 					want := xofReference(size, L, pos, n, rm)
-					w := &pathWalker{env: newEnv(), assumeErrNil: true, lengths: true, maxSteps: 4000}
+					w := &pathWalker{env: newEnv(), assumeErrNil: true, lengths: true, maxSteps: 4000, opaque: map[string]bool{"finalize": true, "Write": true, "initConfig": true, "Reset": true}}
 					w.env.bind(p, n)
 					w.state = map[string]int64{
 						"x.remaining": L - pos, "x.offset": pos % size, "x.nodeOffset": (pos + size - 1) / size,
